@@ -130,6 +130,12 @@ def check_struct(f, rep, ty, ctor, items, source, self_view, table=False):
             g = at.get(show(p))
             if t[0] == 'setter':
                 ok = g is not None and g[0] == 'int' and g[2] == s[2] and g[1] == ('a', 'self.' + t[1])
+                adt_ = f.adt(ty)
+                if not ok and adt_ and all(fd['name'] != t[1] for fd in adt_['variants'][0]['fields']) and g is not None and g[0] == 'int' and g[2] >= s[2]:
+                    # the field is not kept in the state under its name (separate bools combined at serialisation time):
+                    # what is emitted here *is* the field; C11 decides, on the emission, that every option sets its own bit
+                    # of it and the constructor starts it as specified
+                    rep.ob('setter-placement', '%s.%s' % (ty, t[1]), True, sp=sp_, detail={'offset': show(p), 'width': s[2], 'derived_at_serialisation': show_segs([g])[:120]}); continue
                 if not ok and g is not None and g[0] == 'int' and g[2] > s[2] and g[1] == ('a', 'self.' + t[1]):
                     # emitted through a wider integer: the field's bytes followed by zero bytes (the layout rule decides
                     # whether zeros are what the specification has there)
